@@ -62,9 +62,63 @@ def _eqb(a, b):
     return core.sbytes(a) == b
 
 
-def _cb(v, env):
-    """concrete bytes of a possibly symbolic byte string"""
-    return bytes(conc_value(core.sbytes(v), env)) if not isinstance(v, (bytes, bytearray)) else bytes(v)
+def _cb(v, env=None):
+    """concrete bytes of a possibly symbolic byte string under the current solver model (uninterpreted terms included)"""
+    if isinstance(v, (bytes, bytearray)):
+        return bytes(v)
+    c = core.ctx()
+    return bytes(i if isinstance(i, int) else core.model_int(c.model, i.n, c.mode) for i in v)
+
+
+def assume_nq(p):
+    """harness precondition that cannot make the current path infeasible by itself (definitional instances, constraints on
+    fresh variables): appended to the path condition without the feasibility query of core.assume"""
+    if isinstance(p, SB):
+        p = p.n
+    elif isinstance(p, bool):
+        if p:
+            return
+        raise core.PathAbort()
+    c = core.ctx()
+    c.pc.append(c.lower(p))
+    c.pcn.append(p)
+    c.assumed.append(p)
+
+
+_orig_branch = core.branch
+
+
+def _branch_cached(p):
+    """a condition that is literally on the path already (or its negation) is decided without a solver query"""
+    c = core.CTX
+    if c is not None and p is not TRUE and p is not FALSE:
+        np_ = b_not(p)
+        for q in c.pcn:
+            if q is p:
+                return True
+            if q is np_:
+                return False
+            if q.op == "band" and p in q.args:
+                return True
+    return _orig_branch(p)
+
+
+def _fresh_query(self, extra, timeout_ms=None):
+    """same contract as Ctx.query; a fresh solver per query instead of push/pop on the incremental one (the queries of this
+    check — wide uninterpreted-function arguments — are 5-8 times faster through z3's non-incremental pipeline)"""
+    import time
+    import z3
+    t = time.time()
+    s = z3.Solver()
+    s.set("timeout", timeout_ms or self.timeout_ms)
+    s.add(self.solver.assertions())
+    s.add(*self.pc)
+    s.add(*extra)
+    rs = str(s.check())
+    self.model = s.model() if rs == "sat" else None
+    self.stats.solver_s += time.time() - t
+    self.stats.q[rs] += 1
+    return rs
 
 
 def der_wf(b):
@@ -82,6 +136,7 @@ def der_wf(b):
 
 class _State:
     hash_calls = []
+    conc_hashes = {}
     tw_calls = []
     nsig = 0
     inj = True
@@ -186,7 +241,7 @@ class KeyStub:
         p = n_uf("TWP", 1, [px, t], (256, 256))
         for (px2, t2, x2) in ST.tw_calls:
             if x2 is not x:
-                assume(wrapb(b_or(b_not(b_cmp("eq", x, x2)), b_and(b_cmp("eq", px, px2), b_cmp("eq", t, t2)))))
+                assume_nq(wrapb(b_or(b_not(b_cmp("eq", x, x2)), b_and(b_cmp("eq", px, px2), b_cmp("eq", t, t2)))))
         if all(x is not c[2] for c in ST.tw_calls):
             ST.tw_calls.append((px, t, x))
         return KeyStub(SBytes([wrap(n_byte(x, 31 - i)) for i in range(32)]), parity=wrap(p))
@@ -239,9 +294,10 @@ class KeyStub:
 class PrivStub:
     """signer: sign() returns a fresh symbolic signature that is assumed Valid for the signer's key on the signed digest"""
 
-    def __init__(self, point, name, compressed=True):
+    def __init__(self, point, name, compressed=True, others=()):
         self.point = point
         self.name = name
+        self.others = list(others)  # encodings of the other keys: an ideal signature is valid for its own key only
         self.compressed = compressed
         self.network = "mainnet"
 
@@ -249,16 +305,16 @@ class PrivStub:
         ST.nsig += 1
         r = SBytes.sym(f"sig{ST.nsig}.{self.name}.r", 32)
         s = SBytes.sym(f"sig{ST.nsig}.{self.name}.s", 32)
-        assume(s_and(r[0] >= 1, r[0] < 0x80, s[0] >= 1, s[0] < 0x80))
+        assume_nq(s_and(r[0] >= 1, r[0] < 0x80, s[0] >= 1, s[0] < 0x80))
         der = b"\x30\x44\x02\x20" + r + b"\x02\x20" + s
-        assume(valid_ecdsa(self.point.enc, z, der))
+        assume_nq(s_and(valid_ecdsa(self.point.enc, z, der), *[s_not(valid_ecdsa(o, z, der)) for o in self.others]))
         return SigStub(der)
 
     def sign_schnorr(self, msg, aux=None):
         ST.nsig += 1
         raw = SBytes.sym(f"sig{ST.nsig}.{self.name}", 64)
-        assume(raw[32] < 0x80)
-        assume(valid_schnorr(self.point.xonly(), msg, raw))
+        assume_nq(raw[32] < 0x80)
+        assume_nq(s_and(valid_schnorr(self.point.xonly(), msg, raw), *[s_not(valid_schnorr(o, msg, raw)) for o in self.others]))
         return SchnorrStub(raw)
 
 
@@ -284,9 +340,45 @@ def _uf_bytes_inj(name, outlen, parts):
         else:
             conds.append(b_not(b_cmp("eq", node, n2)))
     ST.hash_calls.append((fname, node))
+    for (algo, d), rr in ST.conc_hashes.items():
+        c = _conc_link(algo, d, rr, fname, node)
+        if c is not None:
+            conds.append(c)
     if conds:
-        assume(wrapb(b_and(*conds)))
+        assume_nq(wrapb(b_and(*conds)))
     return r
+
+
+_orig_digest = shims._H.digest
+
+
+def _digest_linked(self):
+    """concrete inputs are hashed for real; the value is linked to the uninterpreted symbols of the same algorithm
+    (UF(x) == real(d)  =>  x == d), so that the solver cannot equate a committed hash with the hash of a constant"""
+    d = norm(self.data) if isinstance(self.data, SBytes) else self.data
+    if not isinstance(d, (bytes, bytearray)) or not ST.inj or self.algo not in _ALGOS:
+        return _orig_digest(self)
+    r = _orig_digest(self)
+    key = (self.algo, bytes(d))
+    if key not in ST.conc_hashes:
+        ST.conc_hashes[key] = r
+        conds = []
+        for (fn2, n2) in ST.hash_calls:
+            c = _conc_link(self.algo, bytes(d), r, fn2, n2)
+            if c is not None:
+                conds.append(c)
+        if conds:
+            assume_nq(wrapb(b_and(*conds)))
+    return r
+
+
+def _conc_link(algo, d, r, fname, node):
+    if fname.split("_")[0] != algo:
+        return None
+    rv = const(int.from_bytes(r, "big"))
+    if fname == f"{algo}_{len(d)}":
+        return b_or(b_not(b_cmp("eq", node, rv)), b_cmp("eq", node.args[3], const(int.from_bytes(d, "big"))))
+    return b_not(b_cmp("eq", node, rv))
 
 
 class M:
@@ -304,12 +396,16 @@ def mods():
         for mod in (M.op, M.taproot, M.tx):
             mod.SchnorrSignature = SchnorrStub
         shims._uf_bytes = _uf_bytes_inj
+        shims._H.digest = _digest_linked
+        core.branch = _branch_cached
+        core.Ctx.query = _fresh_query
         M.ready = True
     return M
 
 
 def reset_path():
     ST.hash_calls = []
+    ST.conc_hashes = {}
     ST.tw_calls = []
     ST.nsig = 0
     ST.inj = True
@@ -321,22 +417,30 @@ def reset_path():
 # ------------------------------------------------------------------------------------------------ templates
 
 ECDSA_T = ("p2pkh", "p2wpkh", "p2sh-p2wpkh", "p2sh-ms", "p2wsh-ms", "p2sh-p2wsh-ms")
-TAPROOT_T = ("p2tr-key", "p2tr-checksig", "p2tr-csa")
+TAPROOT_T = ("p2tr-checksig", "p2tr-csa")
 OPSET = (0, 81, 97, 117, 118)  # OP_0, OP_1, OP_NOP, OP_DROP, OP_DUP
+TXVARS = ("pidx", "seq", "value", "amount", "version", "locktime")
 
 
-def sym_sec(name):
-    b = SBytes.sym(name, 33)
-    assume(s_or(b[0] == 2, b[0] == 3))
-    return b
+class _Native:
+    ready = False
+
+
+def native_mods():
+    if not _Native.ready:
+        import buidl.tx, buidl.script, buidl.witness, buidl.op, buidl.taproot, buidl.helper, buidl.ecc  # noqa
+        _Native.tx, _Native.script, _Native.witness, _Native.op = buidl.tx, buidl.script, buidl.witness, buidl.op
+        _Native.taproot, _Native.helper, _Native.ecc = buidl.taproot, buidl.helper, buidl.ecc
+        _Native.ready = True
+    return _Native
 
 
 def ms_commands(m, keys):
     return [80 + m] + list(keys) + [80 + len(keys), 174]
 
 
-def tap_commands(tmpl, m, xkeys):
-    if tmpl == "p2tr-csa":
+def tap_commands(name, m, xkeys):
+    if name == "p2tr-csa":
         cmds = [xkeys[0], 0xAC]
         for k in xkeys[1:]:
             cmds += [k, 0xBA]
@@ -345,22 +449,21 @@ def tap_commands(tmpl, m, xkeys):
 
 
 class Tmpl:
-    """one output to spend: scriptPubKey, script keys, the genuine redeem / witness / leaf script and control block,
-    built through the real Script / TapLeaf / ControlBlock classes.  `pfx` names the symbolic keys (a second instance with
-    another prefix is the attacker's own 'foreign' output of the same shape)."""
+    """one output to spend: scriptPubKey, script keys, the genuine redeem / witness / leaf script and control block, built
+    through the Script / TapLeaf / ControlBlock classes of `md` (the shimmed modules with stand-in points, or the native
+    modules with real points: the same construction serves the symbolic run and the replay)"""
 
-    def __init__(self, name, m, n, pfx="k"):
-        md = mods()
+    def __init__(self, md, name, m, n, points, internal=None):
         sc = md.script
-        self.name, self.m, self.n = name, m, n
-        self.redeem = self.wscript = self.leaf = self.cb = None
+        self.md, self.name, self.m, self.n = md, name, m, n
+        self.points, self.internal_point = list(points), internal
+        self.redeem = self.wscript = self.leaf = self.cb = self.internal = None
         self.redeem_cmds = self.wscript_cmds = self.leaf_cmds = None
         self.schnorr = name in TAPROOT_T
+        self.need = m if name.endswith("-ms") or name == "p2tr-csa" else 1
         if not self.schnorr:
-            self.keys = [sym_sec(f"{pfx}{i}") for i in range(n)]
-            for a, b in itertools.combinations(self.keys, 2):
-                assume(core.sbytes(a[1:]) != b[1:])
-            k0 = KeyStub(self.keys[0])
+            self.keys = [p.sec() for p in points]
+            k0 = points[0]
             if name == "p2pkh":
                 self.spk = k0.p2pkh_script()
             elif name == "p2wpkh":
@@ -388,32 +491,55 @@ class Tmpl:
             else:
                 raise KeyError(name)
         else:
-            self.internal = SBytes.sym(f"{pfx}.internal", 32)
-            ip = KeyStub(self.internal)
-            self.xkeys = [SBytes.sym(f"{pfx}{i}", 32) for i in range(n)]
-            for a, b in itertools.combinations(self.xkeys, 2):
-                assume(core.sbytes(a) != b)
-            self.leaf_cmds = tap_commands(name, m, self.xkeys) if name != "p2tr-key" else [SBytes.sym(f"{pfx}.other", 32), 0xAC]
+            self.internal = internal.xonly()
+            self.xkeys = [p.xonly() for p in points]
+            self.leaf_cmds = tap_commands(name, m, self.xkeys)
             tl = md.taproot.TapLeaf(sc.Script(list(self.leaf_cmds)))
-            self.leaf = tl.tap_script.raw_serialize()
             self.tapleaf = tl
-            q = ip.tweaked_key(tl.hash())
-            self.cb = md.taproot.ControlBlock(0xC0, q.parity, ip, []).serialize()
+            self.leaf = tl.tap_script.raw_serialize()
+            self.root = tl.hash()
+            q = internal.tweaked_key(self.root)
+            self.cb = md.taproot.ControlBlock(0xC0, q.parity, internal, []).serialize()
             self.outkey = q.xonly()
             self.spk = sc.P2TRScriptPubKey(self.outkey)
-            # the keys that authorise: the output key for the key path, the leaf keys for the script path
-            self.keys = [self.outkey] if name == "p2tr-key" else self.xkeys
-        self.need = 1 if name in ("p2pkh", "p2wpkh", "p2sh-p2wpkh", "p2tr-key", "p2tr-checksig") else m
+            # key 0 authorises the key path, keys 1.. the script path
+            self.keys = [self.outkey] + self.xkeys
 
 
-def build_tx(spk, ss_cmds, wit_items, n_in=1, idx=0):
+def sym_tmpl(name, m, n, pfx="k"):
     md = mods()
+    if name in TAPROOT_T:
+        encs = [SBytes.sym(f"{pfx}{i}", 32) for i in range(n)]
+        internal = KeyStub(SBytes.sym(f"{pfx}.internal", 32))
+    else:
+        encs = []
+        for i in range(n):
+            b = SBytes.sym(f"{pfx}{i}", 33)
+            assume_nq(s_or(b[0] == 2, b[0] == 3))
+            encs.append(b)
+        internal = None
+    for a, b in itertools.combinations(encs, 2):
+        assume_nq(core.sbytes(a[-32:]) != b[-32:])
+    t = Tmpl(md, name, m, n, [KeyStub(e) for e in encs], internal)
+    # a committed hash / output key is not a script-number zero (all bytes zero up to a sign bit; probability < 2^-150)
+    cv = committed_value(t)
+    assume_nq(s_or(*[cv[i] != 0 for i in range(len(cv) - 1)]))
+    return t
+
+
+def sym_fields():
+    return {"prev": SBytes.sym("prev", 32), "pidx": SI.var("pidx", 0, 0xFFFFFFFF), "seq": SI.var("seq", 0, 0xFFFFFFFF),
+            "value": SI.var("value", 0, (1 << 63) - 1), "amount": SI.var("amount", 0, (1 << 63) - 1),
+            "version": SI.var("version", 1, 2), "locktime": SI.var("locktime", 0, 0xFFFFFFFF)}
+
+
+def build_tx(md, spk, ss_cmds, wit_items, n_in, idx, f):
     txm, sc, wi = md.tx, md.script, md.witness
     ins = []
     for i in range(n_in):
         if i == idx:
-            ti = txm.TxIn(SBytes.sym("prev", 32), SI.var("pidx", 0, 0xFFFFFFFF), sc.Script(list(ss_cmds)), SI.var("seq", 0, 0xFFFFFFFF))
-            ti._value = SI.var("value", 0, (1 << 63) - 1)
+            ti = txm.TxIn(f["prev"], f["pidx"], sc.Script(list(ss_cmds)), f["seq"])
+            ti._value = f["value"]
             ti._script_pubkey = spk
             ti.witness = wi.Witness(list(wit_items))
         else:
@@ -421,40 +547,37 @@ def build_tx(spk, ss_cmds, wit_items, n_in=1, idx=0):
             ti._value = 5000 + i
             ti._script_pubkey = sc.P2WPKHScriptPubKey(bytes([0x60 + i]) * 20)
         ins.append(ti)
-    outs = [txm.TxOut(SI.var("amount", 0, (1 << 63) - 1), sc.P2WPKHScriptPubKey(b"\x42" * 20))]
+    outs = [txm.TxOut(f["amount"], sc.P2WPKHScriptPubKey(b"\x42" * 20))]
     for i in range(1, n_in):
         outs.append(txm.TxOut(1000 + i, sc.P2PKHScriptPubKey(bytes([0x50 + i]) * 20)))
-    return txm.Tx(SI.var("version", 1, 2), ins, outs, SI.var("locktime", 0, 0xFFFFFFFF), network="mainnet", segwit=True)
+    return txm.Tx(f["version"], ins, outs, f["locktime"], network="mainnet", segwit=True)
 
 
-def ref_digest(t, tx, idx, ht, annex=None):
-    """digest of this transaction for hash type ht with the *committed* script code (explicit arguments to the real
-    sig_hash_legacy / sig_hash_bip143 / sig_hash_bip341; Tx.sig_hash's own selection of the script is not used)"""
-    md = mods()
+def ref_digest(t, f, n_in, idx, ht, annex=None, ext=0):
+    """digest of this transaction for hash type ht with the *committed* script code: explicit arguments to the real
+    sig_hash_legacy / sig_hash_bip143 / sig_hash_bip341 on a reference copy of the transaction (same fields, canonical
+    witness); Tx.sig_hash's own selection of the script from the scriptSig / witness under test is not used"""
+    md = t.md
     sc = md.script
+    if t.schnorr:
+        items = [b"\x00" * 64] if ext == 0 else [t.leaf, t.cb]
+        if annex is not None:
+            items = items + [annex]
+        ref = build_tx(md, t.spk, [], items, n_in, idx, f)
+        return ref.sig_hash_bip341(idx, ext_flag=ext, hash_type=ht)
+    ref = build_tx(md, t.spk, [], [], n_in, idx, f)
     if t.name == "p2pkh":
-        return tx.sig_hash_legacy(idx, None, ht)
+        return ref.sig_hash_legacy(idx, None, ht)
     if t.name == "p2sh-ms":
-        return tx.sig_hash_legacy(idx, sc.RedeemScript(list(t.redeem_cmds)), ht)
+        return ref.sig_hash_legacy(idx, sc.RedeemScript(list(t.redeem_cmds)), ht)
     if t.name == "p2wpkh":
-        return tx.sig_hash_bip143(idx, None, None, ht)
+        return ref.sig_hash_bip143(idx, None, None, ht)
     if t.name == "p2sh-p2wpkh":
-        return tx.sig_hash_bip143(idx, sc.RedeemScript(list(t.redeem_cmds)), None, ht)
-    if t.name in ("p2wsh-ms", "p2sh-p2wsh-ms"):
-        return tx.sig_hash_bip143(idx, None, sc.WitnessScript(list(t.wscript_cmds)), ht)
-    # taproot: a reference copy of the transaction whose input carries the canonical witness (and the same annex)
-    items = [b"\x00" * 64] if t.name == "p2tr-key" else [t.leaf, t.cb]
-    if annex is not None:
-        items = items + [annex]
-    ref = build_tx(t.spk, [], items, len(tx.tx_ins), idx)
-    return ref.sig_hash_bip341(idx, ext_flag=0 if t.name == "p2tr-key" else 1, hash_type=ht)
+        return ref.sig_hash_bip143(idx, sc.RedeemScript(list(t.redeem_cmds)), None, ht)
+    return ref.sig_hash_bip143(idx, None, sc.WitnessScript(list(t.wscript_cmds)), ht)
 
 
 # ------------------------------------------------------------------------------------------------ O1: attacker-chosen spends
-
-def shape_str(slots):
-    return ",".join(s[0] + (str(s[1]) if len(s) > 1 else "") for s in slots)
-
 
 def parse_shape(s):
     out = []
@@ -466,72 +589,74 @@ def parse_shape(s):
     return out
 
 
+SLOT_SRC = {"redeem": "redeem", "wscript": "wscript", "leaf": "leaf", "cb": "cb",
+            "fredeem": "redeem", "fwscript": "wscript", "fleaf": "leaf", "fcb": "cb"}
+
+
 class Spend:
-    """materialised attacker spend: commands / items plus the bookkeeping the oracle and the witness need"""
+    """materialised attacker spend: commands / items plus the bookkeeping the oracle and the witness need.
+    slot kinds: pL (push of L symbolic bytes), annexL (0x50 then L-1 symbolic bytes), op (symbolic opcode from OPSET),
+    redeem / wscript / leaf / cb (the genuine script bytes), f... (the same object of the attacker's own output)"""
 
     def __init__(self, t, ss_slots, wit_slots):
         self.t = t
         self.ft = None
         self.foreign = any(s[0].startswith("f") for s in list(ss_slots) + list(wit_slots))
         if self.foreign:
-            self.ft = Tmpl(t.name, t.m, t.n, pfx="f")
-            for a in self.ft.keys:
-                for b in t.keys:
-                    assume(core.sbytes(a[-32:]) != b[-32:])
+            self.ft = sym_tmpl(t.name, t.m, t.n, pfx="f")
+            for a in self.ft.keys[1:] if t.schnorr else self.ft.keys:
+                for b in t.keys[1:] if t.schnorr else t.keys:
+                    assume_nq(core.sbytes(a[-32:]) != b[-32:])
             if t.schnorr:
-                assume(core.sbytes(self.ft.internal) != t.internal)
+                assume_nq(core.sbytes(self.ft.internal) != t.internal)
+        self.ss_slots, self.wit_slots = list(ss_slots), list(wit_slots)
         self.ss = [self._slot(s, f"ss{i}") for i, s in enumerate(ss_slots)]
         self.wit = [self._slot(s, f"w{i}") for i, s in enumerate(wit_slots)]
-        self.ss_slots, self.wit_slots = list(ss_slots), list(wit_slots)
 
     def _slot(self, s, name):
-        t, ft = self.t, self.ft
         kind = s[0]
         if kind == "p":
             return SBytes.sym(name, s[1]) if s[1] else b""
+        if kind == "s":  # signature-sized push whose hash-type byte is SIGHASH_ALL (the other bytes symbolic)
+            return SBytes.sym(name, s[1] - 1) + b"\x01"
         if kind == "annex":
             return b"\x50" + (SBytes.sym(name, s[1] - 1) if s[1] > 1 else b"")
         if kind == "op":
             v = SI.var(name, 0, 255)
-            assume(s_or(*[v == o for o in OPSET]))
+            assume_nq(s_or(*[v == o for o in OPSET]))
             return core.concretize(v)
-        src = ft if kind.startswith("f") else t
-        val = {"redeem": src.redeem, "wscript": src.wscript, "leaf": src.leaf, "cb": src.cb}[kind[1:] if kind.startswith("f") else kind]
+        val = getattr(self.ft if kind.startswith("f") else self.t, SLOT_SRC[kind])
         if val is None:
-            raise KeyError(f"slot {kind} does not exist for template {t.name}")
+            raise KeyError(f"slot {kind} does not exist for template {self.t.name}")
         return val
 
+    def all(self):
+        return list(zip(self.ss_slots, self.ss)) + list(zip(self.wit_slots, self.wit))
+
     def candidates(self):
-        """(global index, item) of pushes that could be signatures"""
+        """(global index, item) of attacker pushes that could be signatures"""
         out = []
-        allv = [(s, v) for s, v in zip(self.ss_slots, self.ss)] + [(s, v) for s, v in zip(self.wit_slots, self.wit)]
-        for j, (s, v) in enumerate(allv):
-            if s[0] != "p":
+        for j, (s, v) in enumerate(self.all()):
+            if s[0] not in ("p", "s"):
                 continue
-            if self.t.schnorr and s[1] in (64, 65):
-                out.append((j, v))
-            elif not self.t.schnorr and s[1] >= 9:
+            if (s[1] in (64, 65)) if self.t.schnorr else (s[1] >= 9):
                 out.append((j, v))
         return out
 
     def describe(self, env):
-        """JSON description of every slot under the model: structural roles are resolved so that the replay can rebuild
-        the spend with real keys"""
+        """JSON description of every slot under the model; pushes equal to a named object (script key, genuine script, ...)
+        are reported by role so that the replay can rebuild the spend with real keys"""
         t = self.t
-        named = []
-        for i, k in enumerate(t.keys):
-            named.append(({"k": "key", "i": i}, k))
-        for nm, v in (("redeem", t.redeem), ("wscript", t.wscript), ("leaf", t.leaf), ("cb", t.cb)):
-            if v is not None:
-                named.append(({"k": nm}, v))
-        if t.schnorr:
-            named.append(({"k": "internal"}, t.internal))
+        named = [({"k": "key", "i": i}, k) for i, k in enumerate(t.keys)]
+        for nm in ("redeem", "wscript", "leaf", "cb", "internal"):
+            if getattr(t, nm) is not None:
+                named.append(({"k": nm}, getattr(t, nm)))
         named = [(d, _cb(v, env)) for d, v in named]
 
         def one(s, v):
             if s[0] == "op":
                 return {"k": "op", "op": int(v)}
-            if s[0] in ("p", "annex"):
+            if s[0] in ("p", "s", "annex"):
                 b = _cb(v, env)
                 for d, nb in named:
                     if nb == b:
@@ -548,36 +673,37 @@ def annex_of(items):
     return None
 
 
-def authorisation(t, tx, idx, cands, annex):
-    """SB: at least t.need distinct script keys have a Valid signature among the candidate items on the reference digest.
-    Returns (auth, vmap) with vmap[(j, k)] the per item / key validity term."""
+def sig_terms(t, f, n_in, idx, cands, annex, valid_e, valid_s):
+    """vmap[(j, k)]: candidate item j is a Valid signature of script key k on the reference digest (SB in the symbolic run,
+    bool in the replay: valid_e / valid_s are the uninterpreted predicates resp. the real verification)"""
     vmap = {}
     for (j, it) in cands:
         try:
             if t.schnorr:
                 raw, ht = (it, 0) if len(it) == 64 else (it[:64], it[64])
-                d = ref_digest(t, tx, idx, ht, annex)
-                for k, key in enumerate(t.keys):
-                    vmap[(j, k)] = valid_schnorr(key, d, raw)
+                d0 = ref_digest(t, f, n_in, idx, ht, annex, 0)
+                vmap[(j, 0)] = valid_s(t.keys[0], d0, raw)
+                d1 = ref_digest(t, f, n_in, idx, ht, annex, 1)
+                for k in range(1, len(t.keys)):
+                    vmap[(j, k)] = valid_s(t.keys[k], d1, raw)
             else:
                 der, ht = it[:-1], it[-1]
-                wf = der_wf(der)
-                if wf is False:
+                if not der_wf(der):
                     continue
-                d = ref_digest(t, tx, idx, ht, annex)
+                d = ref_digest(t, f, n_in, idx, ht)
                 for k, key in enumerate(t.keys):
-                    vmap[(j, k)] = s_and(wf, valid_ecdsa(key, d, der))
+                    vmap[(j, k)] = valid_e(key, d, der)
         except Exception:
             continue
-    # ideal signatures: one signature is valid for at most one key
-    for (j, it) in cands:
-        for k1, k2 in itertools.combinations(range(len(t.keys)), 2):
-            if (j, k1) in vmap and (j, k2) in vmap:
-                assume(s_not(s_and(vmap[(j, k1)], vmap[(j, k2)])))
-    per_key = [s_or(*[v for (j, k2), v in vmap.items() if k2 == k]) if any(k2 == k for (_, k2) in vmap) else False
-               for k in range(len(t.keys))]
-    auth = s_or(*[s_and(*[per_key[k] for k in sub]) for sub in itertools.combinations(range(len(t.keys)), t.need)])
-    return auth, vmap
+    return vmap
+
+
+def authorised(t, vmap):
+    nk = len(t.keys)
+    per_key = [s_or(*[v for (j, k2), v in vmap.items() if k2 == k]) for k in range(nk)]
+    if t.schnorr:
+        return s_or(per_key[0], *[s_and(*[per_key[k] for k in sub]) for sub in itertools.combinations(range(1, nk), t.need)])
+    return s_or(*[s_and(*[per_key[k] for k in sub]) for sub in itertools.combinations(range(nk), t.need)])
 
 
 def _mval(v):
@@ -587,14 +713,12 @@ def _mval(v):
     return bool(v)
 
 
-TXVARS = ("pidx", "seq", "value", "amount", "version", "locktime")
-
-
 def attack_path(tmpl, m, n, ss, wit, n_in=1, idx=0):
     reset_path()
-    t = Tmpl(tmpl, m, n)
+    t = sym_tmpl(tmpl, m, n)
     sp = Spend(t, parse_shape(ss), parse_shape(wit))
-    tx = build_tx(t.spk, sp.ss, sp.wit, n_in, idx)
+    f = sym_fields()
+    tx = build_tx(t.md, t.spk, sp.ss, sp.wit, n_in, idx, f)
     try:
         ok = bool(tx.verify_input(idx))
     except Exception as e:
@@ -605,7 +729,13 @@ def attack_path(tmpl, m, n, ss, wit, n_in=1, idx=0):
         return "rejected"
     cands = sp.candidates()
     annex = annex_of(sp.wit) if t.schnorr else None
-    auth, vmap = authorisation(t, tx, idx, cands, annex)
+    vmap = sig_terms(t, f, n_in, idx, cands, annex, valid_ecdsa, valid_schnorr)
+    # ideal signatures: one signature is valid for at most one key
+    for (j, it) in cands:
+        for k1, k2 in itertools.combinations(range(len(t.keys)), 2):
+            if (j, k1) in vmap and (j, k2) in vmap:
+                assume_nq(s_not(s_and(vmap[(j, k1)], vmap[(j, k2)])))
+    auth = authorised(t, vmap)
 
     def wfn(env):
         ssd, wd = sp.describe(env)
@@ -627,3 +757,451 @@ def ob_attack(tmpl, m, n, shapes, n_in=1, idx=0):
     r["sample"] = {"template": tmpl, "m": m, "n": n, "shapes": len(shapes), "example": {"scriptsig": shapes[0][0], "witness": shapes[0][1]},
                    "items": "symbolic bytes of the stated lengths; op = symbolic opcode from OP_0/OP_1/OP_NOP/OP_DROP/OP_DUP"}
     return r
+
+
+# ------------------------------------------------------------------------------------------------ replay (real keys, real signatures)
+
+_REAL = {}
+
+
+def _secret(tag, i):
+    import hashlib
+    return int.from_bytes(hashlib.sha256(f"C06/{tag}/{i}".encode()).digest(), "big") % (N_ORDER - 1) + 1
+
+
+def real_priv(tag, i):
+    k = (tag, i)
+    if k not in _REAL:
+        _REAL[k] = native_mods().ecc.PrivateKey(_secret(tag, i))
+    return _REAL[k]
+
+
+class RealTmpl(Tmpl):
+    def __init__(self, name, m, n, tag):
+        md = native_mods()
+        self.privs = [real_priv(tag, i) for i in range(n)]
+        if name in TAPROOT_T:
+            # the library orders tapscript multisig keys by x-only encoding; any order is a script, keep the given one
+            self.ipriv = real_priv(tag + "/internal", 0)
+            Tmpl.__init__(self, md, name, m, n, [p.point for p in self.privs], self.ipriv.point)
+            self.signers = [self.ipriv.tweaked_key(self.root)] + self.privs
+        else:
+            Tmpl.__init__(self, md, name, m, n, [p.point for p in self.privs])
+            self.signers = self.privs
+
+
+def real_valid_e(key, z, der):
+    md = native_mods()
+    try:
+        return bool(md.ecc.S256Point.parse(bytes(key)).verify(z, md.ecc.Signature.parse(bytes(der))))
+    except Exception:
+        return False
+
+
+def real_valid_s(key, msg, raw):
+    md = native_mods()
+    try:
+        return bool(md.ecc.S256Point.parse_xonly(bytes(key)).verify_schnorr(msg, md.ecc.SchnorrSignature.parse(bytes(raw))))
+    except Exception:
+        return False
+
+
+def real_sign(t, signer, f, n_in, idx, ht, annex, ext, length):
+    """a real signature by `signer` over the real reference digest; `length` is the model's item length (Schnorr: 64 / 65)"""
+    d = ref_digest(t, f, n_in, idx, ht, annex, ext)
+    if t.schnorr:
+        raw = signer.sign_schnorr(d).serialize()
+        return raw + (bytes([ht]) if length == 65 else b"")
+    return signer.sign(d).der() + bytes([ht])
+
+
+def rebuild(w):
+    """concrete spend from a witness: real keys, real scripts; items the model calls Valid for script key k become real
+    signatures by k over the real reference digest; other well-formed signature-shaped items become real signatures by a key
+    outside the script (well formed, invalid); everything else is kept byte for byte"""
+    t = RealTmpl(w["template"], w["m"], w["n"], "script")
+    ft = RealTmpl(w["template"], w["m"], w["n"], "foreign")
+    outsider = real_priv("outsider", 0)
+    f = dict(w["tx"])
+    f["prev"] = bytes.fromhex(f["prev"])
+    n_in, idx = w["n_in"], w["idx"]
+    descs = list(w["scriptsig"]) + list(w["witness"])
+    nss = len(w["scriptsig"])
+    valid = {}
+    for j, k in w["valid"]:
+        valid.setdefault(j, k)
+
+    def plain(d):
+        k = d["k"]
+        if k == "op":
+            return d["op"]
+        if k == "push":
+            return bytes.fromhex(d["hex"])
+        if k == "key":
+            return t.keys[d["i"]]
+        if k in ("redeem", "wscript", "leaf", "cb", "internal"):
+            return getattr(t, k)
+        return getattr(ft, SLOT_SRC[k])
+    vals = [plain(d) for d in descs]
+    wit0 = vals[nss:]
+    annex = annex_of([v for v in wit0]) if t.schnorr else None
+    script_path = t.schnorr and any(d["k"] in ("leaf", "fleaf") for d in w["witness"])
+    subst = {}
+    for j, d in enumerate(descs):
+        if d["k"] != "push":
+            continue
+        b = vals[j]
+        L = len(b)
+        if t.schnorr:
+            if L not in (64, 65) or (b[0] == 0x50 and j == len(descs) - 1):
+                continue
+            ht = b[64] if L == 65 else 0
+            if j in valid:
+                k = valid[j]
+                subst[j] = real_sign(t, t.signers[k], f, n_in, idx, ht, annex, 0 if k == 0 else 1, L)
+            else:
+                try:
+                    subst[j] = real_sign(t, outsider, f, n_in, idx, ht, annex, 1 if script_path else 0, L)
+                except Exception:
+                    pass
+        else:
+            if L < 9 or not der_wf(b[:-1]):
+                continue
+            ht = b[-1]
+            try:
+                subst[j] = real_sign(t, t.signers[valid[j]] if j in valid else outsider, f, n_in, idx, ht, None, 0, L)
+            except Exception:
+                pass
+    for j, v in subst.items():
+        vals[j] = v
+    tx = build_tx(t.md, t.spk, vals[:nss], vals[nss:], n_in, idx, f)
+    return t, tx, f, vals, nss
+
+
+def replay_attack(w):
+    t, tx, f, vals, nss = rebuild(w)
+    n_in, idx = w["n_in"], w["idx"]
+    try:
+        ok = bool(tx.verify_input(idx))
+        how = "returned %r" % ok
+    except Exception as e:
+        ok, how = False, "raised %r" % (e,)
+    items = [(j, v) for j, v in enumerate(vals) if isinstance(v, (bytes, bytearray))]
+    cands = [(j, v) for j, v in items if ((len(v) in (64, 65)) if t.schnorr else len(v) >= 9)]
+    annex = annex_of(vals[nss:]) if t.schnorr else None
+    vmap = sig_terms(t, f, n_in, idx, cands, annex, real_valid_e, real_valid_s)
+    foreign = any(d["k"].startswith("f") for d in list(w["scriptsig"]) + list(w["witness"]))
+    auth = bool(authorised(t, vmap)) and not foreign
+    nvalid = sorted({k for (j, k), v in vmap.items() if v})
+
+    def show(v):
+        return v if isinstance(v, int) else (bytes(v).hex() if len(v) <= 40 else bytes(v)[:8].hex() + f"..({len(v)} bytes)")
+    return {"violated": bool(ok and not auth),
+            "observed": f"{w['template']} {w['m']}-of-{w['n']}: scriptSig={[show(v) for v in vals[:nss]]} witness={[show(v) for v in vals[nss:]]}: "
+                        f"verify_input {how}; script keys with a valid signature on this transaction: {nvalid} (need {t.need})"
+                        + ("; foreign script presented" if foreign else ""),
+            "expected": "false or an error"}
+
+
+def replay_attack_kf(w):  # alias kept for known-findings authors: same witness format
+    return replay_attack(w)
+
+
+# ------------------------------------------------------------------------------------------------ O0: the DER stand-in is exact
+
+def _der_lemma_path(n):
+    reset_path()
+    pecc = mods().pecc
+    b = SBytes.sym("d", n) if n else b""
+    wit = lambda env: {"der": core.bytes_env(env, "d", n).hex()}  # noqa
+    try:
+        pecc.Signature.parse(b)
+        ok = True
+    except Exception:
+        ok = False
+    if ok:
+        check(der_wf(b), "the real DER parser accepts a string outside the stand-in's accept set", witness=wit)
+    else:
+        check(s_not(der_wf(b)), "the real DER parser rejects a string inside the stand-in's accept set", witness=wit)
+    return ok
+
+
+def ob_der_lemma(lengths):
+    runs = [sym_run(lambda: _der_lemma_path(n), timeout_ms=30000) for n in lengths]
+    r = merge_runs(runs)
+    r["sample"] = {"der": "symbolic byte strings", "lengths": list(lengths)}
+    if "True" not in r["classes"]:
+        r["inconclusive"].append("reachability twin: the real parser accepted nothing")
+    return r
+
+
+def replay_der(w):
+    from buidl.ecc import Signature
+    b = bytes.fromhex(w["der"])
+    try:
+        Signature.parse(b)
+        ok = True
+    except Exception as e:
+        ok = False
+    return {"violated": ok != bool(der_wf(b)), "observed": f"Signature.parse({b.hex()}) accepted={ok}, stand-in predicate {bool(der_wf(b))}"}
+
+
+# ------------------------------------------------------------------------------------------------ O2 / O3: library-built spends
+
+def honest_spend(t, tx, idx, privs, signers, outpriv=None):
+    """sign and finalise input idx through the library's own helpers; returns what the last helper / verify_input reports.
+    privs: PrivStub (symbolic run) or PrivateKey (replay) per script key; signers: indexes of the keys that sign"""
+    md = t.md
+    sc = md.script
+    ti = tx.tx_ins[idx]
+    if t.name == "p2pkh":
+        return tx.sign_input(idx, privs[0]) if signers else tx.verify_input(idx)
+    if t.name == "p2wpkh":
+        return tx.sign_input(idx, privs[0]) if signers else tx.verify_input(idx)
+    if t.name == "p2sh-p2wpkh":
+        return tx.sign_input(idx, privs[0], redeem_script=sc.RedeemScript(list(t.redeem_cmds))) if signers else tx.verify_input(idx)
+    if t.name == "p2sh-ms":
+        rs = sc.RedeemScript(list(t.redeem_cmds))
+        sigs = [tx.get_sig_legacy(idx, privs[i], redeem_script=rs) for i in signers]
+        ti.finalize_p2sh_multisig(sigs, rs)
+        return tx.verify_input(idx)
+    if t.name in ("p2wsh-ms", "p2sh-p2wsh-ms"):
+        ws = sc.WitnessScript(list(t.wscript_cmds))
+        sigs = [tx.get_sig_segwit(idx, privs[i], witness_script=ws) for i in signers]
+        if t.name == "p2wsh-ms":
+            ti.finalize_p2wsh_multisig(sigs, ws)
+        else:
+            ti.finalize_p2sh_p2wsh_multisig(sigs, ws)
+        return tx.verify_input(idx)
+    if signers == ("keypath",):
+        return tx.sign_p2tr_keypath(idx, outpriv)
+    tap_script = md.taproot.MultiSigTapScript(list(t.points), t.need)
+    cb = tap_script.tap_leaf().control_block(t.internal_point)
+    tx.initialize_p2tr_multisig(idx, cb, tap_script)
+    sigs = [tx.get_sig_taproot(idx, privs[i], ext_flag=1) if i in signers else b"" for i in range(len(privs))]
+    return tx.finalize_p2tr_multisig(idx, sigs)
+
+
+def wrong_commitment(t, variant, hx):
+    """scriptPubKey whose committed hash / output key is hx instead of the genuine one (O3)"""
+    sc = t.md.script
+    if t.name == "p2pkh":
+        return sc.P2PKHScriptPubKey(hx)
+    if t.name == "p2wpkh":
+        return sc.P2WPKHScriptPubKey(hx)
+    if t.name in ("p2sh-p2wpkh", "p2sh-ms", "p2sh-p2wsh-ms"):
+        return sc.P2SHScriptPubKey(hx)
+    if t.name == "p2wsh-ms":
+        return sc.P2WSHScriptPubKey(hx)
+    return sc.P2TRScriptPubKey(hx)
+
+
+def committed_value(t):
+    if t.name == "p2pkh":
+        return t.spk.commands[2]
+    return t.spk.commands[1]
+
+
+def honest_path(tmpl, m, n, signers, commit=None, n_in=1, idx=0):
+    """commit=None: O2 (the spend must verify iff enough distinct keys signed); commit='wrong': O3 (the scriptPubKey commits to a
+    different hash / output key: the fully signed spend must be rejected)"""
+    reset_path()
+    t = sym_tmpl(tmpl, m, n)
+    if t.schnorr:
+        # the library orders tapscript keys by their x-only encoding: take the names k0 < k1 < ... in that order
+        for a, b in zip(t.xkeys, t.xkeys[1:]):
+            assume_nq(core.sbytes(a) < b)
+        encs = t.xkeys
+    else:
+        encs = t.keys
+    privs = [PrivStub(p, f"k{i}", others=[e for j, e in enumerate(encs) if j != i]) for i, p in enumerate(t.points)]
+    outpriv = PrivStub(KeyStub(t.outkey), "out", others=list(t.xkeys)) if t.schnorr else None
+    f = sym_fields()
+    good = committed_value(t)
+    if commit:
+        hx = SBytes.sym("hx", len(good))
+        assume_nq(core.sbytes(hx) != good)
+        t.spk = wrong_commitment(t, commit, hx)
+    tx = build_tx(t.md, t.spk, [], [], n_in, idx, f)
+    try:
+        ok = bool(honest_spend(t, tx, idx, privs, signers, outpriv))
+        how = "ok" if ok else "rejected"
+    except Exception as e:
+        ok, how = False, "error:" + type(e).__name__
+    enough = signers == ("keypath",) or len(set(signers)) >= t.need
+    expect = enough and not commit
+
+    def wfn(env):
+        w = {"template": tmpl, "m": m, "n": n, "n_in": n_in, "idx": idx, "signers": list(signers), "commit": commit,
+             "tx": dict({v: env[v] for v in TXVARS}, prev=core.bytes_env(env, "prev", 32).hex())}
+        if commit:
+            w["hx"] = core.bytes_env(env, "hx", len(good)).hex()
+        return w
+    if expect:
+        check(ok, "a spend signed through the library with the required keys does not verify", witness=wfn)
+    elif commit:
+        check(not ok, "a fully signed spend verifies against a scriptPubKey that commits to a different hash / key", witness=wfn)
+    else:
+        check(not ok, "a spend with fewer than m distinct signers verifies", witness=wfn)
+    return how
+
+
+def ob_honest(tmpl, m, n, cases, commit=None):
+    runs = [sym_run(lambda: honest_path(tmpl, m, n, tuple(sg), commit), timeout_ms=60000, max_violations=2) for sg in cases]
+    r = merge_runs(runs)
+    r["sample"] = {"template": tmpl, "m": m, "n": n, "signer sets": [list(c) for c in cases], "commitment": commit or "genuine",
+                   "keys / signatures / transaction fields": "symbolic"}
+    want = "'rejected'" if commit else "'ok'"
+    if want not in r["classes"] and not any(k.startswith("'error") for k in r["classes"]) and not r["violations"]:
+        r["inconclusive"].append(f"reachability twin: outcome {want} never reached")
+    return r
+
+
+def replay_honest(w):
+    t = RealTmpl(w["template"], w["m"], w["n"], "script")
+    f = dict(w["tx"])
+    f["prev"] = bytes.fromhex(f["prev"])
+    signers = tuple(w["signers"])
+    privs = t.privs
+    if t.schnorr:
+        # MultiSigTapScript sorts by x-only key: index the signers in that order, as the symbolic run does
+        order = sorted(range(len(privs)), key=lambda i: privs[i].point.xonly())
+        privs = [privs[i] for i in order]
+        t = RealTmplOrdered(w["template"], w["m"], w["n"], privs, t.ipriv)
+    if w.get("commit"):
+        t.spk = wrong_commitment(t, w["commit"], bytes.fromhex(w["hx"]))
+    tx = build_tx(t.md, t.spk, [], [], w["n_in"], w["idx"], f)
+    try:
+        ok = bool(honest_spend(t, tx, w["idx"], privs, signers, t.signers[0] if t.schnorr else None))
+        how = "returned %r" % ok
+    except Exception as e:
+        ok, how = False, "raised %r" % (e,)
+    enough = signers == ("keypath",) or len(set(signers)) >= t.need
+    expect = enough and not w.get("commit")
+    return {"violated": ok != expect,
+            "observed": f"{w['template']} {w['m']}-of-{w['n']} signed by keys {list(signers)} through the library helpers"
+                        + (" against a scriptPubKey committing to " + w["hx"] if w.get("commit") else "") + f": {how}",
+            "expected": f"verify_input == {expect}"}
+
+
+class RealTmplOrdered(Tmpl):
+    def __init__(self, name, m, n, privs, ipriv):
+        self.privs, self.ipriv = privs, ipriv
+        Tmpl.__init__(self, native_mods(), name, m, n, [p.point for p in privs], ipriv.point)
+        self.signers = [ipriv.tweaked_key(self.root)] + privs
+
+
+# ------------------------------------------------------------------------------------------------ shapes and registry
+
+def _j(*parts):
+    return ",".join(p for p in parts if p)
+
+
+SK_DATA = ["", "p0", "p1", "p33", "p72", "p72,p33", "p71,p33", "p33,p72", "p72,p72", "p33,p33", "p1,p33", "p0,p33", "p72,p1",
+           "p72,p65", "p1,p72,p33", "p72,p33,p1", "p0,p0,p33", "s72,p72,p33", "p2,p2,s72,p33"]
+SK_OPS = ["op", "op,p33", "p72,op", "p72,p33,op", "op,p72,p33", "p72,op,p33", "s72,p33,op,op"]
+SS_JUNK = ["p0", "p1", "p2", "op", "p33", "p72", "p1,p1", "op,op", "p0,op"]
+
+
+def ms_shapes(m, n, R, ops):
+    sigs = ["p72"] + ["s72"] * (m - 1)
+    S = ",".join(sigs)
+    proper = _j("p0", S, R)
+    out = [R, _j("p0", R), _j(S, R), proper, _j("p1", S, R), _j("p1", proper), _j("p0", S, "s72", R), _j("p0", "p0", R),
+           _j("p0", "p71", *sigs[1:], R), _j("p0", S, "f" + R), _j("p0", S), _j(S, "p0", R), _j("p0", "p33", R), "f" + R, ""]
+    if m > 1:
+        out += [_j("p0", ",".join(sigs[:-1]), R), _j("p0", ",".join(sigs[:-1]), "p0", R), _j("p0", "p0", ",".join(sigs[:-1]), R)]
+    if ops:
+        out += [_j(R, "op"), _j("op", R), _j(proper, "op"), _j("p0", S, "op", R), _j("op", S, R), _j(R, "op", "op"), _j("p0", R, "op")]
+    seen, res = set(), []
+    for x in out:
+        if x not in seen:
+            seen.add(x)
+            res.append(x)
+    return res
+
+
+def attack_shapes(tmpl, m, n, tier):
+    """(scriptSig shape, witness shape) pairs for one template"""
+    if tmpl == "p2pkh":
+        return [(x, "") for x in SK_DATA + SK_OPS]
+    if tmpl == "p2wpkh":
+        return [("", x) for x in SK_DATA] + [(j, w) for j in SS_JUNK for w in ("", "p72,p33")]
+    if tmpl == "p2sh-p2wpkh":
+        return [("redeem", x) for x in ("", "p72,p33", "p33", "p72", "p1,p33", "p72,p33,p1", "p33,p72", "p0,p33")] + \
+               [(j, w) for j in ("", "redeem,op", "op,redeem", "p1,redeem", "fredeem", "redeem,redeem", "p22", "redeem,p1") for w in ("", "p72,p33")]
+    if tmpl == "p2sh-ms":
+        return [(x, "") for x in ms_shapes(m, n, "redeem", True)]
+    if tmpl == "p2wsh-ms":
+        proper = _j("p0", ",".join(["p72"] + ["s72"] * (m - 1)), "wscript")
+        return [("", x) for x in ms_shapes(m, n, "wscript", False)] + [(j, w) for j in ("p1", "op", "p0", "p34") for w in ("", proper)]
+    if tmpl == "p2sh-p2wsh-ms":
+        S = ",".join(["p72"] + ["s72"] * (m - 1))
+        proper = _j("p0", S, "wscript")
+        return [("redeem", x) for x in (proper, "wscript", "p0,wscript", _j("p0", S, "fwscript"), _j("p1", S, "wscript"), _j(S, "wscript"), "")] + \
+               [(j, proper) for j in ("", "redeem,op", "op,redeem", "fredeem", "p1,redeem")] + [("redeem,op", ""), ("redeem,op", "wscript")]
+    if tmpl == "p2tr-checksig":
+        key = ["p64", "p65", "p64,annex2", "p65,annex1", "annex1", "annex2", "annex33", "p0", "p1", "p2", "p33", "p64,p1", "p1,p64",
+               "p64,p64", "p0,annex1", ""]
+        scr = ["p64,leaf,cb", "p65,leaf,cb", "p0,leaf,cb", "leaf,cb", "p64,leaf,cb,annex2", "p1,leaf,cb", "p64,fleaf,fcb", "p64,fleaf,cb",
+               "p64,leaf,fcb", "p64,p1,leaf,cb", "p1,p64,leaf,cb", "p33,leaf,cb", "leaf,cb,annex1", "p64,cb,leaf", "p64,leaf"]
+        return [("", x) for x in key + scr] + [(j, w) for j in ("p1", "op", "p0") for w in ("", "p64", "p64,leaf,cb")]
+    if tmpl == "p2tr-csa":
+        out = []
+        for combo in itertools.product((0, 1), repeat=n):
+            items, first = [], True
+            for c in reversed(combo):  # the witness carries the signature for the last key first
+                if c:
+                    items.append("p64" if first else "s65")
+                    first = False
+                else:
+                    items.append("p0")
+            out.append(_j(*items, "leaf", "cb"))
+        full = _j("p64", *["s65"] * (n - 1), "leaf", "cb")
+        out += [_j(*["p64"] + ["p0"] * (n - 2), "leaf", "cb"), _j("p1", full), _j("p64", *["s65"] * (n - 1), "fleaf", "fcb"),
+                _j(full, "annex2"), "leaf,cb", _j("p1", *["p0"] * (n - 1), "leaf", "cb")]
+        return [("", x) for x in dict.fromkeys(out)] + [("p1", full), ("op", "")]
+    raise KeyError(tmpl)
+
+
+def signer_cases(tmpl, m, n):
+    if tmpl in ("p2pkh", "p2wpkh", "p2sh-p2wpkh"):
+        return [(0,), ()]
+    cases = [c for r in range(0, n + 1) for c in itertools.combinations(range(n), r)]
+    if m >= 2:
+        cases.append((0, 0))
+    if tmpl == "p2tr-checksig":
+        cases.append(("keypath",))
+    return cases
+
+
+QUICK_T = [("p2pkh", 1, 1), ("p2wpkh", 1, 1), ("p2sh-p2wpkh", 1, 1), ("p2sh-ms", 1, 1), ("p2sh-ms", 1, 2), ("p2sh-ms", 2, 2), ("p2sh-ms", 2, 3),
+           ("p2wsh-ms", 1, 2), ("p2wsh-ms", 2, 3), ("p2sh-p2wsh-ms", 1, 2), ("p2tr-checksig", 1, 1), ("p2tr-csa", 1, 2), ("p2tr-csa", 2, 2),
+           ("p2tr-csa", 2, 3)]
+THOROUGH_T = QUICK_T + [("p2sh-ms", 1, 3), ("p2sh-ms", 3, 3), ("p2wsh-ms", 1, 1), ("p2wsh-ms", 2, 2), ("p2wsh-ms", 3, 3), ("p2sh-p2wsh-ms", 2, 3),
+                        ("p2tr-csa", 1, 3), ("p2tr-csa", 3, 3)]
+
+
+def obligations(tier):
+    q = tier == "quick"
+    obs = [Ob("O0-der-lemma", ob_der_lemma, {"lengths": tuple(range(0, 10))}, replay="der"),
+           Ob("O0-der-lemma", ob_der_lemma, {"lengths": (10, 11) if q else (10, 11, 12)}, replay="der"),
+           Ob("O0-der-lemma", ob_der_lemma, {"lengths": (12, 13) if q else (13, 14)}, replay="der", budget_s=1500)]
+    for (tmpl, m, n) in (QUICK_T if q else THOROUGH_T):
+        shapes = attack_shapes(tmpl, m, n, tier)
+        chunk = 6
+        for i in range(0, len(shapes), chunk):
+            obs.append(Ob("O1-attack", ob_attack, {"tmpl": tmpl, "m": m, "n": n, "shapes": tuple(shapes[i:i + chunk])}, replay="attack",
+                          budget_s=280 if q else 2400))
+    for (tmpl, m, n) in (QUICK_T if q else THOROUGH_T):
+        obs.append(Ob("O2-honest", ob_honest, {"tmpl": tmpl, "m": m, "n": n, "cases": tuple(signer_cases(tmpl, m, n))}, replay="honest"))
+        full = tuple(range(m)) if tmpl not in ("p2pkh", "p2wpkh", "p2sh-p2wpkh") else (0,)
+        cases = [full] + ([("keypath",)] if tmpl == "p2tr-checksig" else [])
+        obs.append(Ob("O3-commitment", ob_honest, {"tmpl": tmpl, "m": m, "n": n, "cases": tuple(cases), "commit": "wrong"}, replay="honest"))
+    # a second input position: the proper spend shapes with the input under test at index 1 of 2
+    for (tmpl, m, n) in (("p2pkh", 1, 1), ("p2wpkh", 1, 1), ("p2sh-ms", 1, 2), ("p2wsh-ms", 1, 2), ("p2tr-checksig", 1, 1), ("p2tr-csa", 1, 2)):
+        shapes = attack_shapes(tmpl, m, n, tier)
+        pick = [sh for sh in shapes if sh in (("p72,p33", ""), ("", "p72,p33"), ("p0,p72,redeem", ""), ("", "p0,p72,wscript"), ("", "p64"),
+                                              ("", "p64,leaf,cb"), ("", "p0,p64,leaf,cb"), ("redeem,op", ""), ("", "annex1"), ("p1", ""))]
+        obs.append(Ob("O1-attack", ob_attack, {"tmpl": tmpl, "m": m, "n": n, "shapes": tuple(pick), "n_in": 2, "idx": 1}, replay="attack"))
+    return obs
